@@ -14,6 +14,9 @@ structure ImplOp where
   wire : Bytes := []
   canR : Bool := true
   canW : Bool := true
+  /-- the masking keys offered to this call (hook queue) and how many the implementation drew -/
+  masks : List Bytes := []
+  mu : Nat := 0
   deriving Inhabited
 
 structure ImplCase where
@@ -91,6 +94,7 @@ structure WFrame where
   payload : Bytes       -- unmasked
   size : Nat            -- header size
   minimal : Bool
+  key : Bytes := []     -- the masking key, if masked
   deriving Inhabited
 
 /-- split the bytes an endpoint wrote into complete frames; the rest is an incomplete tail -/
@@ -104,7 +108,8 @@ def parseWire : Nat → Bytes → List WFrame × Bytes
       else
         let raw := (bs.drop h.size).take h.len
         let minimal := h.size == 2 + (if h.len < 126 then 0 else if h.len < 65536 then 2 else 8) + (if h.mask.isSome then 4 else 0)
-        let f : WFrame := ⟨h.fin, h.rsv, h.opcode, h.mask.isSome, Spec.unmaskPayload h.mask raw, h.size, minimal⟩
+        let f : WFrame := ⟨h.fin, h.rsv, h.opcode, h.mask.isSome, Spec.unmaskPayload h.mask raw, h.size, minimal,
+          (match h.mask with | some m => m.toBytes | none => [])⟩
         let (fs, tail) := parseWire fuel ((bs.drop h.size).drop h.len)
         (f :: fs, tail)
 
@@ -294,6 +299,18 @@ def monC09 (c : ImplCase) : List String :=
   match bad with
   | some f => [s!"mon C09 FAIL malformed-frame opcode={f.opcode} fin={f.fin} rsv={f.rsv} masked={f.masked} minimal={f.minimal} len={f.payload.length}"]
   | none => ["mon C09 ok"]
+
+/-- C09, fresh key per frame: the keys of the frames a client put on the wire are, in order, a
+prefix of the keys the generator handed out (every frame draws exactly one key, also a frame
+handed back by `WriteBufferFull` and written again, or a raw frame that came with a key) -/
+def monC09Keys (c : ImplCase) : List String :=
+  if !c.newOk || c.role != .client then [] else
+  let (frames, _) := wireFrames (allWire c)
+  let drawn := c.ops.toList.foldl (fun acc o => acc ++ o.masks.take o.mu) []
+  let onWire := frames.map (·.key)
+  if frames.any (fun f => !f.masked) then ["mon C09 FAIL client-frame-unmasked"]
+  else if onWire.length ≤ drawn.length && onWire == drawn.take onWire.length then ["mon C09 ok"]
+  else ["mon C09 FAIL frame-key-is-not-the-next-generated-key"]
 
 def unhexList : List Char → Bytes
   | a :: b :: rest =>
@@ -529,7 +546,47 @@ def monC14 (c : ImplCase) : List String :=
               bad := bad <|> some "write-buffer-full-but-bytes-written"
       | _, _ => pure ()
     return bad
-  match res with
+  -- threshold part, on the prefix of the case that consists of data/ping writes and flushes only
+  -- (no automatic reply can be pending there): the unsent amount is known from the outside as
+  -- (encoded size of the frames queued) - (bytes the transport accepted)
+  let hlen (n : Nat) : Nat := (if n < 126 then 2 else if n < 65536 then 4 else 10) + (if c.role == .client then 4 else 0)
+  let thr : Option String := Id.run do
+    let mut bad : Option String := none
+    let mut unsent : Nat := 0
+    let mut live := true
+    for o in ops do
+      if live then
+        match o.body with
+        | "write" :: kind :: h :: _ =>
+          if kind == "text" || kind == "binary" || kind == "ping" then
+            let n := (unhex h).length
+            let fl := hlen n + n
+            let touched := o.io.any fun t => t.startsWith "w:" || t.startsWith "f:"
+            match o.res with
+            | "ok" :: _ =>
+              if unsent + fl ≤ c.cfg.wbuf && touched then bad := bad <|> some "write-below-threshold-touched-transport"
+              if c.cfg.wbuf == 0 && !touched then bad := bad <|> some "write-buffer-size-0-but-write-kept-back"
+              if unsent + fl > c.cfg.maxw then bad := bad <|> some "accepted-beyond-max-write-buffer"
+              unsent := unsent + fl - o.wire.length
+            | "err" :: e :: _ =>
+              if e.startsWith "WriteBufferFull(" then
+                if unsent + fl ≤ c.cfg.maxw then bad := bad <|> some "write-buffer-full-although-room"
+                if touched then bad := bad <|> some "write-buffer-full-touched-transport"
+              else if e.startsWith "Io." then
+                unsent := unsent + fl - o.wire.length
+              else live := false
+            | _ => live := false
+          else live := false
+        | ["flush"] =>
+          unsent := unsent - o.wire.length
+          match o.res with
+          | "ok" :: _ => if unsent != 0 then bad := bad <|> some "flush-ok-with-unsent-data"
+          | "err" :: e :: _ => if !e.startsWith "Io." then live := false
+          | _ => live := false
+        | "can" :: _ => pure ()
+        | _ => live := false
+    return bad
+  match res <|> thr with
   | some b => [s!"mon C14 FAIL {b}"]
   | none => ["mon C14 ok"]
 
@@ -558,7 +615,7 @@ def monMem (c : ImplCase) : List String :=
 def all (c : ImplCase) : List String :=
   let m10 := monC10 c
   let m09 := monC09 c
-  monC07 c ++ monMem c ++ monSpecAll c ++ monC03 c ++ m09 ++ m10 ++ monC11 c ++ monC12 c ++ monC13 c ++ monC14 c ++ monC01 c
+  monC07 c ++ monMem c ++ monSpecAll c ++ monC03 c ++ m09 ++ monC09Keys c ++ m10 ++ monC11 c ++ monC12 c ++ monC13 c ++ monC14 c ++ monC01 c
     ++ alias m10 "C10" "C19" ++ alias m09 "C09" "C19" ++ alias m10 "C10" "C01"
     ++ alias (monC13 c) "C13" "C10" ++ alias ((monC13 c).filter (·.contains "FAIL")) "C13" "C12"
     ++ alias ((monC13 c).filter (·.contains "FAIL")) "C13" "C04" ++ alias ((monC03 c).filter (·.contains "FAIL")) "C03" "C04"
